@@ -445,6 +445,25 @@ def named_sums(ctx):
     return list(S.NAMED_SUMS.values())[ctx.named_mark:]
 
 
+def find_named_sum(ctx, spec_sum, budget_ms=3000):
+    """The symbol of the finite sum named on this path whose definition is provably `spec_sum`
+    (Sigma-extensionality, checked in a scratch context), or None."""
+    from .interp import Ctx
+    for (v, s) in named_sums(ctx):
+        sub = Ctx(ctx.world, [])
+        sub.pc = list(ctx.pc)
+        sub.axioms = list(ctx.axioms)
+        sub.counter = ctx.counter
+        sub.named_mark = ctx.named_mark
+        try:
+            sum_zero(sub, 'same', S.sub(s, spec_sum))
+        except (S.Unsupported, TypeError):
+            continue
+        if sub.obligations and all(discharge(o, budget_ms, quick=True).status == 'discharged' for o in sub.obligations):
+            return v
+    return None
+
+
 def setup_path(ctx, contract):
     """Symbolic arguments, precondition, deep-copied entry state and the model's expectation."""
     from .nplib import PI_AXIOMS, deepcopy_value
